@@ -1,7 +1,14 @@
 """Second-wave contracts (builder w2e): more of the functions the properties depend on.
 
-  S6   aioenums.FlagSetter / FlagWaiter family (= stoppers.DaemonStopper)                       C09
-  M6   handlers.WebhookHandler.operation (deprecated accessor)                                  C18
+  M2   admission.serve_admission_request -- one review end to end, against M3/V1/R5/X2/A5/M1        C18, C14
+  M3   admission.find_resource, build_webhooks, _build_labels_selector                              C18   (finding F-C18-5)
+  M4   admission._normalize_name, _inject_handler_id (bounded: regex / urllib / deepcopy)           C18   (finding F-C18-6)
+  M5   admission.configuration_manager                                                              C18, C12
+  M6   handlers.WebhookHandler.operation (deprecated accessor)                                      C18
+  P3   peering.detect_own_id, guess_selectors, touch_command                                        C13
+  S5   aiotasks.Scheduler.__init__/empty/wait/close, aiotasks.all_tasks                             C01, C20
+  S6   aioenums.FlagSetter / FlagWaiter family (= stoppers.DaemonStopper)                           C09
+  O1u  aiotoggles.Toggle.__init__/is_on/is_off/turn_to/wait_for, ToggleSet.wait_for                 C13, C17
 """
 import asyncio
 import collections.abc
@@ -1088,3 +1095,836 @@ def M2(vc):
     vc.ensure('response_from_those_outcomes', getattr(j, 'of', None) is cause.patch and j.args == ((), {}))
     vc.ensure('patch_taken_after_the_handlers', names.count('as_json_patch') == 1 and names.index('executed') < names.index('as_json_patch'))
     return ('response', len(selected))
+
+
+# =============================================================================================== S5
+class _PoolTask:
+    """asyncio.Task as far as the scheduler uses it: cancel() is recorded with the scheduler's state at that time."""
+    def __init__(self, vc, name):
+        self.vc, self.name, self.cancels = vc, name, 0
+
+    def cancel(self, msg=None):
+        self.cancels += 1
+        self.vc.emit('task.cancel', self)
+        return True
+
+    def __repr__(self):
+        return f'<task {self.name}>'
+
+
+class _SchedState:
+    """Ghost state of a Scheduler shared with its spawner/cleaner tasks: #pending jobs, #running tasks."""
+    def __init__(self, vc, n_running):
+        self.vc = vc
+        self.pending = vc.int('pending0')
+        vc.assume(self.pending >= 0, 'a queue length')
+        self.tasks = [_PoolTask(vc, f'running{i}') for i in range(n_running)]
+        self.running = n_running          # int, later a symbolic count
+
+    def havoc(self, closed):
+        """rely at a suspension point: finished tasks leave the pool, the spawner starts pending jobs (which enter the
+        pool), and -- unless the scheduler is closed -- spawn() may enqueue more"""
+        vc = self.vc
+        p, r = vc.int('pending'), vc.int('running')
+        vc.assume(And(p >= 0, r >= 0), 'counts')
+        vc.assume(Implies(closed, p <= self.pending), 'a closed scheduler accepts no new jobs (S2.closed_rejects)')
+        self.pending, self.running = p, r
+
+
+def _s5_self(vc, st, *, closed):
+    from kopf._cogs.aiokits import aiotasks
+    ld_empty = vc.load('kopf._cogs.aiokits.aiotasks', 'Scheduler.empty')
+    ld_wait = vc.load('kopf._cogs.aiokits.aiotasks', 'Scheduler.wait')
+
+    class Running:
+        def __bool__(self): return bool(st.running > 0)
+        def vc_len(self): return st.running
+        def __len__(self): return int(resolve_count(st.running))
+        def __iter__(self):
+            vc.emit('iterate running'); return iter(list(st.tasks))
+
+    class Pending:
+        def empty(self): return st.pending == 0
+        def qsize(self): return st.pending
+
+    class Condition:
+        held = False
+        async def __aenter__(self):
+            await suspend('condition.acquire'); Condition.held = True; return self
+        async def __aexit__(self, *a):
+            Condition.held = False; return False
+        async def wait_for(self, pred):
+            vc.emit('condition.wait_for', Condition.held, pred)
+            if not bool(pred()):            # asyncio.Condition.wait_for: no suspension when the predicate holds already
+                Condition.held = False
+                await suspend('condition.wait_for')
+                Condition.held = True
+                vc.assume(pred(), 'Condition.wait_for returns only when the predicate holds (with the lock re-acquired)')
+            return True
+        def notify_all(self): vc.emit('notify_all', Condition.held)
+
+    class Self:
+        _limit = None
+        _exception_handler = None
+        _condition = Condition()
+        _pending_coros = Pending()
+        _running_tasks = Running()
+        _cleaning_queue = Opaque('cleaning-queue')
+        _cleaning_task = _PoolTask(vc, 'cleaner')
+        _spawning_task = _PoolTask(vc, 'spawner')
+        def empty(self): return ld_empty.fn(self)
+        def wait(self): return ld_wait.fn(self)
+    me = Self()
+    me._closed = closed
+    return me
+
+
+def resolve_count(x):
+    if isinstance(x, SNum):
+        raise Unsupported('len() of the symbolic pool: use truthiness or vc_len')
+    return x
+
+
+def _s5_init(vc):
+    made = dict(cond=[], queue=[], tasks=[])
+
+    def Condition():
+        made['cond'].append(Opaque('condition')); return made['cond'][-1]
+
+    def Queue(*a, **kw):
+        made['queue'].append(Opaque('queue', args=(a, kw))); return made['queue'][-1]
+
+    def create_task(coro, name=None, **kw):
+        made['tasks'].append(Opaque('task', coro=coro)); return made['tasks'][-1]
+
+    class Self:
+        def _task_cleaner(self): return Opaque('cleaner-coroutine', owner=self)
+        def _task_spawner(self): return Opaque('spawner-coroutine', owner=self)
+    me = Self()
+    limit = vc.opt('limit', vc.int)
+    handler = [None, lambda exc: None][vc.nondet(2, 'exception_handler: None / given')]
+    ld = vc.load('kopf._cogs.aiokits.aiotasks', 'Scheduler.__init__', stubs={
+        'asyncio.Condition': Condition, 'asyncio.Queue': Queue, 'asyncio.create_task': create_task, 'super': _Super})
+    kw = {}
+    if limit is not None:
+        kw['limit'] = limit
+    if handler is not None:
+        kw['exception_handler'] = handler
+    ld.fn(me, **kw)
+    vc.ensure('init.open_empty_configured', me._closed is False and (me._limit is None if limit is None else Eq(me._limit, limit))
+              and me._exception_handler is handler)
+    vc.ensure('init.open_empty_configured', isinstance(me._running_tasks, set) and not me._running_tasks
+              and len(made['queue']) == 2 and me._pending_coros is not me._cleaning_queue
+              and {id(me._pending_coros), id(me._cleaning_queue)} == {id(q) for q in made['queue']}
+              and all(q.args == ((), {}) for q in made['queue'])          # unbounded queues: put() never blocks
+              and len(made['cond']) == 1 and me._condition is made['cond'][0])
+    kinds = sorted(getattr(t.coro, '_name', '?') for t in made['tasks'])
+    vc.ensure('init.two_helper_tasks', kinds == ['cleaner-coroutine', 'spawner-coroutine'] and all(t.coro.owner is me for t in made['tasks']))
+    vc.ensure('init.two_helper_tasks', getattr(me._cleaning_task, 'coro', None) is not None and me._cleaning_task.coro._name == 'cleaner-coroutine'
+              and getattr(me._spawning_task, 'coro', None) is not None and me._spawning_task.coro._name == 'spawner-coroutine')
+    vc.canary('canary.never_empty', limit is None)
+    return ('init',)
+
+
+def _s5_empty(vc):
+    st = _SchedState(vc, 0)
+    st.running = vc.int('running0')
+    vc.assume(st.running >= 0, 'a set size')
+    me = _s5_self(vc, st, closed=vc.bool('closed'))
+    got = me.empty()
+    vc.ensure('empty_iff_nothing_pending_nothing_running', Iff(got, And(st.pending == 0, st.running == 0)))
+    vc.canary('canary.never_empty', Not(got))
+    return ('empty', got)
+
+
+def _s5_wait(vc):
+    st = _SchedState(vc, 0)
+    st.running = vc.int('running0')
+    vc.assume(st.running >= 0, 'a set size')
+    closed = vc.bool('closed')
+    me = _s5_self(vc, st, closed=closed)
+    cancelled = []
+
+    def on_suspend(site):
+        st.havoc(closed)
+        if site == 'condition.wait_for' and vc.nondet(2, 'wait() cancelled meanwhile?') == 1:
+            cancelled.append(asyncio.CancelledError()); return cancelled[0]
+    raised = None
+    try:
+        vc.drive(me.wait(), on_suspend=on_suspend)
+    except asyncio.CancelledError as e:
+        raised = e
+    waits = [ev for ev in vc.trace if ev[0] == 'condition.wait_for']
+    vc.ensure('wait.on_own_condition_under_lock', len(waits) == 1 and waits[0][1] is True)
+    if cancelled:
+        vc.ensure('wait.cancellable', raised is cancelled[0])
+        return ('wait', 'cancelled')
+    vc.ensure('wait.cancellable', raised is None)
+    vc.ensure('wait.returns_only_when_empty', And(st.pending == 0, st.running == 0))
+    vc.ensure('wait.returns_only_when_empty', me._closed is closed)
+    vc.canary('canary.never_empty', False)
+    return ('wait', 'returned')
+
+
+def _s5_close(vc):
+    n = vc.nondet(4, '#running tasks at close()')
+    st = _SchedState(vc, n)
+    me = _s5_self(vc, st, closed=vc.bool('closed before (close() called twice)'))
+    stops = []
+
+    async def stop(tasks, **kw):
+        vc.emit('stop', set(tasks), kw, st.pending, st.running)
+        await suspend('stop')
+        return set(tasks), set()
+    vc.used('aiotasks.stop', 'S4'); vc.used('aiotasks.Scheduler._task_spawner', 'S1'); vc.used('aiotasks.Scheduler._task_cleaner/spawn', 'S2')
+    ld = vc.load('kopf._cogs.aiokits.aiotasks', 'Scheduler.close', stubs={'stop': stop})
+    suspensions = []
+
+    def on_suspend(site):
+        suspensions.append(len(vc.trace))
+        vc.ensure('close.rejects_new_coroutines_at_once', me._closed is True)
+        st.havoc(True)
+    vc.drive(ld.fn(me), on_suspend=on_suspend)
+    tr = vc.trace
+    names = [ev[0] for ev in tr]
+    vc.ensure('close.rejects_new_coroutines_at_once', me._closed is True)
+    first_susp = suspensions[0] if suspensions else len(tr)
+    cancels = [i for i, ev in enumerate(tr) if ev[0] == 'task.cancel']
+    vc.ensure('close.cancels_every_running_task', all(t.cancels >= 1 for t in st.tasks))
+    vc.ensure('close.cancels_every_running_task', all(i < first_susp for i in cancels if tr[i][1] in st.tasks))
+    stops = [(i, ev) for i, ev in enumerate(tr) if ev[0] == 'stop']
+    vc.ensure('close.stops_own_helpers_last', len(stops) == 1 and stops[0][1][1] == {me._spawning_task, me._cleaning_task}
+              and stops[0][0] == len(tr) - 1)
+    vc.ensure('close.stops_own_helpers_last', me._spawning_task.cancels == 0 and me._cleaning_task.cancels == 0)    # only through stop()
+    if stops:
+        _, (_, _, _, pending_then, running_then) = stops[0]
+        vc.ensure('close.waits_until_empty', And(pending_then == 0, running_then == 0))
+        vc.ensure('close.waits_until_empty', 'condition.wait_for' in names[:stops[0][0]])
+    vc.canary('canary.never_empty', n == 0)
+    return ('close', n)
+
+
+def _s5_all_tasks(vc):
+    n = vc.nondet(4, '#other tasks in the loop')
+    current = Opaque('current-task')
+    others = [Opaque(f'task{i}') for i in range(n)]
+    mask = vc.nondet(2 ** n, 'which of them are ignored')
+    ignored = [t for i, t in enumerate(others) if mask >> i & 1]
+    extra = vc.nondet(3, 'ignored also has: nothing / the current task / a task that is gone')
+    if extra == 1:
+        ignored.append(current)
+    elif extra == 2:
+        ignored.append(Opaque('finished-long-ago'))
+    shape = vc.nondet(3, 'ignored: default / frozenset / list')
+    stubs = {'asyncio.current_task': lambda: current, 'asyncio.all_tasks': lambda: set(others) | {current}}
+    ld = vc.load('kopf._cogs.aiokits.aiotasks', 'all_tasks', stubs=stubs)
+    if shape == 0:
+        ignored = []
+        got = vc.drive(ld.fn())
+    else:
+        got = vc.drive(ld.fn(ignored=frozenset(ignored) if shape == 1 else list(ignored)))
+    want = {id(t) for t in others if not any(t is x for x in ignored)}
+    vc.ensure('all_tasks.all_but_current_and_ignored', {id(t) for t in got} == want and len(list(got)) == len(want))
+    vc.canary('canary.never_empty', len(list(got)) > 0)
+    return ('all_tasks', n, len(want))
+
+
+@harness('S5', targets=['kopf._cogs.aiokits.aiotasks.Scheduler.__init__', 'kopf._cogs.aiokits.aiotasks.Scheduler.empty',
+                        'kopf._cogs.aiokits.aiotasks.Scheduler.wait', 'kopf._cogs.aiokits.aiotasks.Scheduler.close',
+                        'kopf._cogs.aiokits.aiotasks.all_tasks'],
+         props=['C01', 'C20'],
+         clause_props={'all_tasks.all_but_current_and_ignored': ['C20']},
+         clauses=['init.open_empty_configured', 'init.two_helper_tasks', 'empty_iff_nothing_pending_nothing_running',
+                  'wait.on_own_condition_under_lock', 'wait.returns_only_when_empty', 'wait.cancellable',
+                  'close.rejects_new_coroutines_at_once', 'close.cancels_every_running_task', 'close.waits_until_empty',
+                  'close.stops_own_helpers_last', 'all_tasks.all_but_current_and_ignored'],
+         canaries=['canary.never_empty'],
+         trusted=['asyncio.Condition: `async with` takes the lock (may suspend); wait_for(pred) must be called with the lock held, '
+                  'returns at once if pred() holds, else releases the lock, suspends, and returns only when pred() holds',
+                  'asyncio.Queue.empty(); asyncio.create_task; asyncio.all_tasks()/current_task()',
+                  'aiotasks.stop(tasks) by contract S4: cancels them and waits until all are done'],
+         assumes=['rely while close()/wait() are suspended: the spawner starts pending jobs and the cleaner removes finished '
+                  'tasks (S1/S2) -- any counts >= 0; a closed scheduler gets no new jobs (S2.closed_rejects)',
+                  'S5 BOUNDS: 0..3 tasks running when close() is called; 0..3 other tasks for all_tasks'])
+def S5(vc):
+    """
+    The rest of aiotasks.Scheduler (S1: spawner, S2: done-callback/cleaner/spawn) and aiotasks.all_tasks.
+      __init__   open (not closed), empty pool, two distinct unbounded queues, its own condition, limit and exception
+                 handler kept; exactly two helper tasks are started: one running its _task_cleaner(), one its _task_spawner()
+      empty()    <=> no job is pending and no task is running
+      wait()     waits on the scheduler's condition, holding it, for exactly that emptiness: it returns only when the
+                 scheduler is empty; it can be cancelled
+      close()    (1) `_closed` is raised before the first suspension point and stays raised: spawn() rejects from then on
+                 (S2.closed_rejects), and the spawner cancels whatever it still starts (S1.job_becomes_owned_task) -- which is
+                 how pending coroutines are started-and-cancelled instead of being left never-awaited; (2) every task running at
+                 that moment is cancelled, before anything is awaited; (3) it then waits until the scheduler is empty -- the
+                 helper tasks are still alive meanwhile, they are what empties it; (4) only then, and last, it stops exactly its
+                 own two helper tasks (aiotasks.stop, S4).
+      all_tasks(ignored=)   every task of the running loop except the calling one and the ignored ones (C20: run_tasks
+                 uses it to find the tasks left behind by the root tasks).
+    """
+    k = vc.nondet(5, 'scenario: init / empty / wait / close / all_tasks')
+    return [_s5_init, _s5_empty, _s5_wait, _s5_close, _s5_all_tasks][k](vc)
+
+
+# =============================================================================================== P3
+PEERING_UNIVERSE = [RES('kopf.dev', 'v1', 'clusterkopfpeerings'), RES('zalando.org', 'v1', 'clusterkopfpeerings'),
+                    RES('kopf.dev', 'v1', 'kopfpeerings'), RES('zalando.org', 'v1', 'kopfpeerings'),
+                    RES('kopf.dev', 'v1', 'kopfexamples'), RES('', 'v1', 'pods'), RES('example.com', 'v1', 'kopfpeerings')]
+
+
+def _contains(s, sub):
+    return s.contains(sub) if isinstance(s, SStr) else (sub in s)
+
+
+def _p3_own_id(vc):
+    pod_k = vc.nondet(3, 'POD_ID: unset / empty / set')
+    pod = [None, '', vc.str('POD_ID')][pod_k]
+    user, host, stamp = vc.str('user'), vc.str('host'), vc.str('timestamp')
+    rnd = ['abcdefgh']
+    manual = vc.bool('manual')
+    asked = []
+
+    class Environ:
+        def get(self, key, default=None):
+            asked.append(key)
+            return pod if key == 'POD_ID' and pod is not None else default
+        def __getitem__(self, key):
+            asked.append(key)
+            if key == 'POD_ID' and pod is not None:
+                return pod
+            raise KeyError(key)
+        def __contains__(self, key):
+            asked.append(key)
+            return key == 'POD_ID' and pod is not None
+
+    class _Now:
+        def strftime(self, fmt):
+            vc.emit('strftime', fmt); return stamp
+
+    class _DT:
+        @staticmethod
+        def now(tz=None):
+            vc.emit('now', tz); return _Now()
+        utcnow = now
+
+    class _DTMod:
+        datetime = _DT
+        class timezone:
+            utc = 'UTC'
+
+    def choices(population, weights=None, *, cum_weights=None, k=1):
+        vc.emit('choices', population, k); return list(rnd[0][:k])
+    ld = vc.load('kopf._core.engines.peering', 'detect_own_id', stubs={
+        'os.environ': Environ(), 'getpass.getuser': lambda: user, 'hostnames.get_descriptive_hostname': lambda: host,
+        'datetime': _DTMod, 'random.choices': choices})
+    got = ld.fn(manual=manual)
+    vc.ensure('own_id.pod_id_wins', 'POD_ID' in asked)
+    vc.canary('canary.id_is_user_at_host', Eq(got, user + '@' + host))
+    if pod_k == 2:
+        vc.ensure('own_id.pod_id_wins', Eq(got, pod))
+        return ('own-id', 'pod')
+    if pod_k == 1:          # an empty POD_ID: nothing is promised beyond "a string"
+        vc.ensure('own_id.pod_id_wins', isinstance(got, (str, SStr)))
+        return ('own-id', 'empty-pod')
+    base = user + '@' + host
+    # the CLI (kopf freeze / kopf resume) relies on a STABLE identity: resume must address the record freeze wrote
+    vc.ensure('own_id.manual_is_stable_user_at_host', Implies(manual, Eq(got, base)))
+    # an operator's identity tells who/where and when it was started, and two starts do not collide even within the same
+    # second: it changes with the start time and with the random source
+    vc.ensure('own_id.operator_id_unique_per_start', Implies(Not(manual), And(got.startswith(base), _contains(got, stamp), Not(Eq(got, base)))))
+    rnd[0] = 'zyxwvuts'
+    again = ld.fn(manual=manual)
+    vc.ensure('own_id.operator_id_unique_per_start', Implies(Not(manual), Not(Eq(again, got))))
+    vc.ensure('own_id.manual_is_stable_user_at_host', Implies(manual, Eq(again, got)))
+    return ('own-id', 'generated')
+
+
+def _p3_selectors(vc):
+    standalone, clusterwide = vc.bool('standalone'), vc.bool('clusterwide')
+    mandatory = vc.bool('mandatory')
+    ps = Opaque('settings.peering', standalone=standalone, clusterwide=clusterwide, namespaced=Not(clusterwide), mandatory=mandatory)
+    ps.name = vc.str('peering.name')
+    settings = Opaque('settings', peering=ps)
+    ld = vc.load('kopf._core.engines.peering', 'guess_selectors')
+    got = list(ld.fn(settings))
+    matched = [[r for r in PEERING_UNIVERSE if s.check(r)] for s in got]
+    covered = {(r.group, r.plural) for rs in matched for r in rs}
+    vc.ensure('selectors.standalone_has_none', Implies(standalone, len(got) == 0))
+    vc.ensure('selectors.cluster_vs_namespaced', Implies(And(Not(standalone), clusterwide),
+              covered == {('kopf.dev', 'clusterkopfpeerings'), ('zalando.org', 'clusterkopfpeerings')}))
+    vc.ensure('selectors.cluster_vs_namespaced', Implies(And(Not(standalone), Not(clusterwide)),
+              covered == {('kopf.dev', 'kopfpeerings'), ('zalando.org', 'kopfpeerings')}))
+    vc.ensure('selectors.both_api_groups', Implies(Not(standalone), len(got) == 2 and all(len(rs) == 1 for rs in matched)))
+    vc.canary('canary.never_standalone', len(got) > 0)
+    return ('selectors', len(got))
+
+
+def _p3_touch_command(vc):
+    lifetime = vc.opt('lifetime', vc.int)
+    identity = vc.str('identity')
+    settings = Opaque('settings', peering=Opaque('settings.peering', priority=vc.int('priority')))
+    n_sel = [0, 2][vc.nondet(2, 'guess_selectors: none (standalone) / two')]
+    selectors = [Opaque(f'selector{i}') for i in range(n_sel)]
+    served = [vc.bool(f'selector{i} in backbone') for i in range(n_sel)]
+    resources = [Opaque(f'peering-resource{i}') for i in range(n_sel)]
+
+    class Backbone:
+        def __contains__(self, s): return served[selectors.index(s)]
+        def __getitem__(self, s):
+            i = selectors.index(s)
+            if not bool(served[i]):
+                raise KeyError(s)
+            return resources[i]
+        def get(self, s, default=None): return self[s] if bool(self.__contains__(s)) else default
+    namespaces = [set(), {None}, {'ns1', 'ns2'}][vc.nondet(3, 'insights.namespaces: none / cluster-wide / two namespaces')]
+    ready = {'ns': Opaque('ready_namespaces'), 'res': Opaque('ready_resources')}
+    ready['ns'].wait = lambda: Opaque('wait-coro', of='ns')
+    ready['res'].wait = lambda: Opaque('wait-coro', of='res')
+    insights = Opaque('insights', namespaces=namespaces, backbone=Backbone(), ready_namespaces=ready['ns'], ready_resources=ready['res'])
+
+    def guess_selectors(*a, **kw):
+        vc.emit('guess_selectors', a, kw); return list(selectors)
+
+    def touch(**kw):
+        m = Opaque('touch-coroutine', kw=kw); vc.emit('touch', kw); return m
+
+    def create_task(coro, **kw):
+        return Opaque('task', coro=coro)
+
+    async def aio_wait(tasks, **kw):
+        vc.emit('asyncio.wait', set(tasks), kw)
+        await suspend('asyncio.wait')
+        return set(tasks), set()
+
+    def create_guarded_task(**kw):
+        t = Opaque('guarded-task', kw=kw); vc.emit('create_guarded_task', kw); return t
+
+    async def aiotasks_wait(tasks, **kw):
+        vc.emit('aiotasks.wait', set(tasks), kw)
+        await suspend('aiotasks.wait')
+        return set(tasks), set()
+    vc.used('peering.guess_selectors', 'P3 (scenario selectors)'); vc.used('peering.touch', 'P2')
+    vc.used('aiotasks.wait', 'S4w'); vc.used('aiotasks.create_guarded_task', 'S3g')
+    ld = vc.load('kopf._core.engines.peering', 'touch_command', stubs={
+        'guess_selectors': guess_selectors, 'touch': touch, 'asyncio.create_task': create_task, 'asyncio.wait': aio_wait,
+        'aiotasks.create_guarded_task': create_guarded_task, 'aiotasks.wait': aiotasks_wait, 'logger': NullLogger()})
+    raised = None
+    try:
+        vc.drive(ld.fn(lifetime=lifetime, insights=insights, identity=identity, settings=settings))
+    except RuntimeError as e:
+        raised = e
+    tr = vc.trace
+    names = [ev[0] for ev in tr]
+    # ---- nothing before both the namespaces and the resources are known
+    waits = [ev for ev in tr if ev[0] == 'asyncio.wait']
+    vc.ensure('command.waits_for_discovery', len(waits) == 1 and names[0] == 'asyncio.wait'
+              and sorted(getattr(t.coro, 'of', '?') for t in waits[0][1]) == ['ns', 'res']
+              and waits[0][2].get('return_when', asyncio.ALL_COMPLETED) == asyncio.ALL_COMPLETED and waits[0][2].get('timeout') is None)
+    found = [r for r, s in zip(resources, served) if bool(s)]
+    vc.ensure('command.fails_without_peering_resource', (raised is not None) == (not found))
+    vc.canary('canary.command_never_fails', raised is None)
+    touches = [ev[1] for ev in tr if ev[0] == 'touch']
+    if not found:
+        vc.ensure('command.fails_without_peering_resource', not touches and 'aiotasks.wait' not in names)
+        return ('command', 'no-resource')
+    # ---- exactly one record written per (namespace, peering resource) -- and nothing else
+    want = {(ns, id(r)) for ns in namespaces for r in found}
+    vc.ensure('command.one_touch_per_peering_object', len(touches) == len(want) and {(kw.get('namespace'), id(kw.get('resource'))) for kw in touches} == want)
+    for kw in touches:
+        vc.ensure('command.record_as_given', kw.get('identity') is identity and kw.get('settings') is settings
+                  and (kw.get('lifetime') is None if lifetime is None else kw.get('lifetime') is lifetime) and len(kw) == 5)
+    guarded = [ev[1] for ev in tr if ev[0] == 'create_guarded_task']
+    vc.ensure('command.one_touch_per_peering_object', len(guarded) == len(touches))
+    vc.ensure('command.all_awaited', all(g.get('finishable') is True for g in guarded))      # a command ends: not "unexpectedly"
+    aw = [ev for ev in tr if ev[0] == 'aiotasks.wait']
+    vc.ensure('command.all_awaited', len(aw) == 1 and names[-1] == 'aiotasks.wait' and len(aw[0][1]) == len(guarded)
+              and all(getattr(t, 'kw', None) is not None and any(t.kw is g for g in guarded) for t in aw[0][1])
+              and aw[0][2].get('return_when', asyncio.ALL_COMPLETED) == asyncio.ALL_COMPLETED and aw[0][2].get('timeout') is None)
+    coros = [g.get('coro') for g in guarded]
+    vc.ensure('command.all_awaited', all(getattr(c, 'kw', None) is not None and any(c.kw is kw for kw in touches) for c in coros)
+              and len({id(c) for c in coros}) == len(coros))
+    return ('command', len(touches))
+
+
+@harness('P3', targets=['kopf._core.engines.peering.detect_own_id', 'kopf._core.engines.peering.guess_selectors',
+                        'kopf._core.engines.peering.touch_command'], props=['C13'],
+         clauses=['own_id.pod_id_wins', 'own_id.manual_is_stable_user_at_host', 'own_id.operator_id_unique_per_start',
+                  'selectors.standalone_has_none', 'selectors.cluster_vs_namespaced', 'selectors.both_api_groups',
+                  'command.waits_for_discovery', 'command.fails_without_peering_resource', 'command.one_touch_per_peering_object',
+                  'command.record_as_given', 'command.all_awaited'],
+         canaries=['canary.id_is_user_at_host', 'canary.never_standalone', 'canary.command_never_fails'],
+         trusted=['os.environ, getpass.getuser, hostnames.get_descriptive_hostname, datetime.now().strftime, random.choices: '
+                  'by their signatures (arbitrary strings; choices(population, k=n) gives n members of the population)',
+                  'references.Selector.check runs natively on a 7-resource universe (scenario selectors)',
+                  'peering.touch by contract P2 (one record {identity: {priority (from settings), lifetime, lastseen}} in the named '
+                  'peering object of that namespace; lifetime 0 removes it)',
+                  'asyncio.wait / aiotasks.wait (S4w): wait for ALL of the given tasks'])
+def P3(vc):
+    """
+    detect_own_id: POD_ID, if set, is the identity.  Otherwise it is "<user>@<host>" exactly when asked for a MANUAL identity
+      (the `kopf freeze` / `kopf resume` CLI: resume must address the very record freeze wrote, so the identity has to be
+      the same on every invocation), and "<user>@<host>/<start time>/<3 random characters>" for an operator, so that two
+      starts of the same operator on the same host do not share a record (C13: each running operator renews/removes ITS record).
+    guess_selectors (docs/peering.rst): standalone => none at all; otherwise the cluster-wide mode selects exactly
+      ClusterKopfPeering and the namespaced mode exactly KopfPeering -- each in both API groups, kopf.dev and the
+      legacy zalando.org (transition) -- and nothing else (checked by matching the returned selectors against 7 resources).
+    touch_command (the backend of `kopf freeze/resume`): nothing happens before both the namespaces and the resources
+      are discovered; no served peering resource => RuntimeError and no write at all; otherwise exactly one touch()
+      per (namespace of the command, served peering resource) -- None for cluster-wide -- carrying the given identity,
+      settings (priority, peering name) and lifetime (0 = resume) unchanged; every one of them is awaited to its end
+      before the command returns.
+    """
+    k = vc.nondet(3, 'scenario: own id / selectors / touch_command')
+    return [_p3_own_id, _p3_selectors, _p3_touch_command][k](vc)
+
+
+# =============================================================================================== M5
+from kopf._cogs.clients import errors as api_errors      # noqa: E402
+from pyvc.loader import _STOP                            # noqa: E402
+
+
+class _ApiFailure(Exception):
+    """any escalated failure of an API request (network, 5xx after the retries, 422 ...)"""
+
+
+def _api_error(cls, status):
+    return cls(None, status=status, headers={})
+
+
+@harness('M5', targets='kopf._core.engines.admission.configuration_manager', props=['C18', 'C12'],
+         clause_props={'create_conflict_tolerated_others_escalate': ['C12', 'C18'], 'failures_escalate_after_cleanup': ['C12', 'C18']},
+         clauses=['unmanaged_touches_nothing', 'waits_for_discovery', 'creates_if_absent_under_managed_name',
+                  'create_conflict_tolerated_others_escalate', 'every_change_rebuilds_and_patches', 'own_type_of_handlers_only',
+                  'cleanup_keeps_persistent_only', 'failures_escalate_after_cleanup'],
+         canaries=['canary.never_patches', 'canary.never_fails'],
+         trusted=['aiovalues.Container.as_changed(): yields the current client config at once (if any) and again whenever the '
+                  'container is set or the insights are revised (chain-notified condition)',
+                  'creating.create_obj / patching.patch_obj: one API request each (retried inside api.request, N2), raising '
+                  'APIConflictError for 409, APIForbiddenError for 403, other APIErrors / network errors otherwise',
+                  'admission.build_webhooks by contract M3; patches.Patch is the real class (a dict)'],
+         assumes=['settings.admission.managed, when set, is a non-empty name'])
+def M5(vc):
+    """
+    configuration_manager(reason, selector, ...): keeps ONE [Validating|Mutating]WebhookConfiguration up to date.
+      unmanaged_touches_nothing     settings.admission.managed is None: waits forever; no API request, no registry access
+      waits_for_discovery           nothing is requested before the resources are scanned and the configuration resource
+                                    (the given selector) is found in the backbone
+      creates_if_absent_under_managed_name   exactly one create attempt (try-or-fail), for that resource, named `managed`
+      create_conflict_tolerated_others_escalate   409 "already exists" is fine; 403 and every other failure propagate
+                                    (the root task fails => the operator stops, C12/C20) and nothing is patched
+      every_change_rebuilds_and_patches   loop contract over `container.as_changed()`: for EVERY yielded client config exactly
+                                    one build_webhooks(handlers, resources=<current insights.webhook_resources>,
+                                    name_suffix=managed, client_config=<that config>) and then exactly one patch of the object
+                                    `managed` (cluster-scoped: namespace None) with {webhooks: <that result>} -- all webhooks
+                                    overwritten (docs/admission.rst "Webhook management")
+      own_type_of_handlers_only     the validating manager registers validating handlers only, the mutating one mutating only,
+                                    in registration order
+      cleanup_keeps_persistent_only on exit (stream end, cancellation, failure), iff some client config was applied, one last
+                                    patch with build_webhooks(..., persistent_only=True) for the LAST config: non-persistent
+                                    webhooks are removed, persistent ones stay (docs "persistent")
+      failures_escalate_after_cleanup   a failed patch / a cancellation ends the manager with that very exception
+    """
+    managed = None if vc.nondet(2, 'settings.admission.managed: None / a name') == 0 else vc.str('managed')
+    if managed is not None:
+        vc.assume(Not(Eq(managed, '')), 'a configuration name is a non-empty string')
+    reason = [WT.VALIDATING, WT.MUTATING][vc.nondet(2, 'manager of: validating / mutating')]
+    settings = Opaque('settings', admission=Opaque('settings.admission', managed=managed, server=Opaque('server')))
+    selector, resource, webhook_resources = Opaque('selector'), Opaque('config-resource'), Opaque('webhook_resources')
+    hs = [Opaque('v1', reason=WT.VALIDATING), Opaque('m1', reason=WT.MUTATING), Opaque('v2', reason=WT.VALIDATING), Opaque('m2', reason=WT.MUTATING)]
+    tr = vc.trace
+    thrown = []
+
+    class Webhooks:
+        def get_all_handlers(self):
+            vc.emit('get_all_handlers'); return tuple(hs) if reason is WT.MUTATING else list(hs)
+    registry = Opaque('registry', _webhooks=Webhooks())
+
+    class Ready:
+        async def wait(self):
+            vc.emit('ready_resources.wait'); await suspend('ready_resources'); return True
+
+    class Backbone:
+        async def wait_for(self, s):
+            vc.emit('backbone.wait_for', s); await suspend('backbone'); return resource
+    insights = Opaque('insights', ready_resources=Ready(), backbone=Backbone(), webhook_resources=webhook_resources)
+    stream = Opaque('as_changed()')
+    container = Opaque('container', as_changed=lambda: stream)
+
+    class Forever:
+        async def wait(self):
+            vc.emit('wait-forever')
+            await suspend('forever')
+            raise Unsupported('an Event nobody sets was "set"')
+    create_outcome = vc.nondet(5, 'create_obj: created / 409 / 403 / other API error / network error') if managed is not None else 0
+
+    async def create_obj(**kw):
+        vc.emit('create_obj', kw)
+        await suspend('create_obj')
+        if create_outcome:
+            thrown.append([_api_error(api_errors.APIConflictError, 409), _api_error(api_errors.APIForbiddenError, 403),
+                           _api_error(api_errors.APIServerError, 500), _ApiFailure('network')][create_outcome - 1])
+            raise thrown[-1]
+        return {}
+
+    def build_webhooks(handlers_, **kw):
+        w = Opaque('webhooks'); vc.emit('build_webhooks', list(handlers_), kw, w); return w
+
+    async def patch_obj(**kw):
+        vc.emit('patch_obj', kw, dict(kw.get('patch') or {}))
+        await suspend('patch_obj')
+        if vc.nondet(2, 'patch_obj: ok / fails') == 1:
+            thrown.append(_ApiFailure('patch')); raise thrown[-1]
+        return {}, None
+    st = Opaque('loop-state', head=None, prev=None, cfg=None, ended=None)
+
+    def havoc(loc):
+        st.prev = [None, Opaque('previous-config')][vc.nondet(2, 'a config was applied in an earlier iteration?')]
+        st.head = len(tr)
+        return {'client_config': st.prev}
+
+    def element(loc, iterable):
+        vc.ensure('every_change_rebuilds_and_patches', iterable is stream)
+        k = vc.nondet(3, 'as_changed(): a new client config / the stream ends / cancelled while waiting')
+        if k == 1:
+            st.ended = 'stop'; return _STOP
+        if k == 2:
+            st.ended = 'cancel'; thrown.append(asyncio.CancelledError()); raise thrown[-1]
+        st.cfg = Opaque('client-config')
+        return st.cfg
+
+    def check_round(evs, cfg, persistent_only):
+        clause = 'cleanup_keeps_persistent_only' if persistent_only else 'every_change_rebuilds_and_patches'
+        evs = [ev for ev in evs if ev[0] in ('build_webhooks', 'patch_obj', 'create_obj', 'get_all_handlers')]
+        vc.ensure(clause, [ev[0] for ev in evs][:2] == ['build_webhooks', 'patch_obj'])
+        if [ev[0] for ev in evs][:2] != ['build_webhooks', 'patch_obj']:
+            return
+        (_, handlers_, bkw, w), (_, pkw, patch) = evs[0], evs[1]
+        vc.ensure('own_type_of_handlers_only', len(handlers_) == 2 and all(a is b for a, b in zip(handlers_, [h for h in hs if h.reason is reason])))
+        vc.ensure(clause, bkw.get('resources') is webhook_resources and bkw.get('name_suffix') is managed and bkw.get('client_config') is cfg
+                  and bool(bkw.get('persistent_only', False)) == persistent_only)
+        vc.ensure(clause, pkw.get('resource') is resource and pkw.get('name') is managed and pkw.get('namespace') is None
+                  and pkw.get('settings') is settings)
+        vc.ensure(clause, list(patch) == ['webhooks'] and patch['webhooks'] is w)
+
+    def at_backedge(loc):
+        evs = tr[st.head:]
+        check_round(evs, st.cfg, False)
+        vc.ensure('every_change_rebuilds_and_patches', [ev[0] for ev in evs if ev[0] in ('build_webhooks', 'patch_obj')] == ['build_webhooks', 'patch_obj'])
+        vc.canary('canary.never_patches', False)
+    vc.used('admission.build_webhooks', 'M3'); vc.used('patching.patch_obj', 'A3/A4'); vc.used('creating.create_obj', 'trusted')
+    ld = vc.load('kopf._core.engines.admission', 'configuration_manager', stubs={
+        'asyncio.Event': Forever, 'creating.create_obj': create_obj, 'patching.patch_obj': patch_obj,
+        'build_webhooks': build_webhooks, 'logger': NullLogger()},
+        loops={1: LoopSpec('async for client_config in container.as_changed()', havoc=havoc, element=element, at_backedge=at_backedge)})
+
+    def on_suspend(site):
+        if site == 'forever':
+            thrown.append(asyncio.CancelledError()); return thrown[-1]
+    raised = None
+    try:
+        vc.drive(ld.fn(reason=reason, selector=selector, registry=registry, settings=settings, insights=insights, container=container),
+                 on_suspend=on_suspend)
+    except BaseException as e:
+        if _escapes(e):
+            raise
+        raised = e
+    names = [ev[0] for ev in tr]
+    vc.canary('canary.never_fails', raised is None)
+    if managed is None:
+        vc.ensure('unmanaged_touches_nothing', names == ['wait-forever'] and raised is thrown[0])
+        return ('unmanaged',)
+    api = [i for i, n in enumerate(names) if n in ('create_obj', 'patch_obj')]
+    vc.ensure('waits_for_discovery', names[:2] == ['ready_resources.wait', 'backbone.wait_for'] and tr[1][1] is selector
+              and all(i > 1 for i in api))
+    creates = [ev for ev in tr if ev[0] == 'create_obj']
+    vc.ensure('creates_if_absent_under_managed_name', len(creates) == 1 and creates[0][1].get('resource') is resource
+              and creates[0][1].get('name') is managed and creates[0][1].get('settings') is settings and creates[0][1].get('namespace') is None)
+    if create_outcome >= 2:
+        vc.ensure('create_conflict_tolerated_others_escalate', raised is thrown[0] and 'patch_obj' not in names and 'build_webhooks' not in names)
+        return ('create-failed', create_outcome)
+    vc.ensure('create_conflict_tolerated_others_escalate', 'loop-head' in names)        # went on to managing
+    # ---- how the loop was left (paths that complete an iteration end at the back edge above)
+    exit_evs = tr[st.head:] if st.head is not None else []
+    in_round = st.cfg is not None                   # left from inside an iteration: its patch failed
+    last_cfg = st.cfg if in_round else st.prev
+    if in_round:
+        first_patch = [i for i, ev in enumerate(exit_evs) if ev[0] == 'patch_obj'][0]
+        check_round(exit_evs[:first_patch + 1], st.cfg, False)
+        exit_evs = exit_evs[first_patch + 1:]
+    cleanup = [ev for ev in exit_evs if ev[0] in ('build_webhooks', 'patch_obj')]
+    if last_cfg is None:
+        vc.ensure('cleanup_keeps_persistent_only', not cleanup)
+    else:
+        check_round(cleanup, last_cfg, True)
+        vc.ensure('cleanup_keeps_persistent_only', [ev[0] for ev in cleanup] == ['build_webhooks', 'patch_obj'])
+    if in_round or st.ended == 'cancel':
+        vc.ensure('failures_escalate_after_cleanup', raised is not None and any(raised is t for t in thrown))
+        if len(thrown) == 1:
+            vc.ensure('failures_escalate_after_cleanup', raised is thrown[0])
+    elif not thrown:
+        vc.ensure('failures_escalate_after_cleanup', raised is None)
+    return ('left', st.ended, in_round, last_cfg is not None, type(raised).__name__)
+
+
+# =============================================================================================== O1u
+class _CondStub:
+    """asyncio.Condition by contract: `async with` takes the lock (may suspend); wait_for(pred) needs the lock, returns at
+    once when pred() holds, otherwise releases the lock, suspends (other tasks run: `meanwhile()`), re-takes the lock and
+    returns only when pred() holds; notify_all() needs the lock."""
+    def __init__(self, vc, name, meanwhile=lambda: None):
+        self.vc, self.name, self.held, self.meanwhile = vc, name, False, meanwhile
+
+    async def __aenter__(self):
+        await suspend(f'{self.name}.acquire')
+        self.held = True
+        return self
+
+    async def __aexit__(self, *a):
+        self.held = False
+        return False
+
+    async def wait_for(self, pred):
+        first = pred()
+        self.vc.emit('wait_for', self, self.held, first)
+        if not bool(first):
+            self.held = False
+            await suspend(f'{self.name}.wait_for')
+            self.meanwhile()
+            self.held = True
+            self.vc.assume(pred(), 'Condition.wait_for returns only when the predicate holds')
+        return True
+
+    def notify_all(self):
+        self.vc.emit('notify_all', self, self.held)
+
+
+def _o1u_wanted(vc):
+    """the wanted state as callers pass it: a bool (symbolic) -- or any truthy/falsy value"""
+    k = vc.nondet(3, 'wanted state: a bool / 0 / 1')
+    w = [vc.bool('wanted'), 0, 1][k]
+    return w, (w if k == 0 else bool(w))
+
+
+def _o1u_toggle(vc):
+    from kopf._cogs.aiokits import aiotoggles
+    scenario = vc.nondet(3, 'toggle: __init__ / turn_to / wait_for')
+    if scenario == 0:
+        own = []
+
+        def Condition():
+            own.append(_CondStub(vc, 'own')); return own[-1]
+        ld = vc.load('kopf._cogs.aiokits.aiotoggles', 'Toggle.__init__', stubs={'asyncio.Condition': Condition, 'super': _Super})
+        t = aiotoggles.Toggle.__new__(aiotoggles.Toggle)
+        given = [None, _CondStub(vc, 'of-the-set')][vc.nondet(2, 'condition: own / of the owning set')]
+        k = vc.nondet(4, 'initial state: default / a bool / 0 / 1')
+        init = [None, vc.bool('initial'), 0, 1][k]
+        args = () if k == 0 else (init,)
+        name = [None, 'n'][vc.nondet(2, 'name')]
+        kw = {}
+        if given is not None:
+            kw['condition'] = given
+        if name is not None:
+            kw['name'] = name
+        ld.fn(t, *args, **kw)
+        spec = False if k == 0 else init if k == 1 else bool(init)
+        vc.ensure('toggle.init', isinstance(t._state, (bool, SBool)) and Iff(t._state, spec))
+        vc.ensure('toggle.init', (t._condition is given and not own) if given is not None else (len(own) == 1 and t._condition is own[0]))
+        vc.ensure('toggle.init', t._name == name)
+        vc.canary('canary.always_off', Not(t._state))
+        return ('init', k)
+    state0 = vc.bool('state@pre')
+    others = dict(turns=0)
+
+    def meanwhile():
+        # other tasks turn the toggle while this one waits
+        t._state = vc.bool('state')
+        others['turns'] += 1
+    cond = _CondStub(vc, 'cond', meanwhile)
+    t = aiotoggles.Toggle.__new__(aiotoggles.Toggle)
+    t._condition, t._state, t._name = cond, state0, None
+    wanted_arg, wanted = _o1u_wanted(vc)
+    ld_on = vc.load('kopf._cogs.aiokits.aiotoggles', 'Toggle.is_on')
+    ld_off = vc.load('kopf._cogs.aiokits.aiotoggles', 'Toggle.is_off')
+    vc.ensure('toggle.is_on_is_off', And(Iff(ld_on.fn(t), state0), Iff(ld_off.fn(t), Not(state0))))
+    if scenario == 1:
+        ld = vc.load('kopf._cogs.aiokits.aiotoggles', 'Toggle.turn_to')
+        vc.drive(ld.fn(t, wanted_arg))
+        vc.ensure('turn_to.sets_state', isinstance(t._state, (bool, SBool)) and Iff(t._state, wanted))
+        notes = [ev for ev in vc.trace if ev[0] == 'notify_all']
+        # the waiters of the toggle -- and of its owning set, which shares the condition (O1t) -- are woken, under the lock
+        vc.ensure('turn_to.notifies_under_lock', len(notes) >= 1 and all(ev[1] is cond and ev[2] is True for ev in notes))
+        vc.ensure('turn_to.notifies_under_lock', cond.held is False)
+        vc.canary('canary.always_off', Not(t._state))
+        return ('turn_to',)
+    ld = vc.load('kopf._cogs.aiokits.aiotoggles', 'Toggle.wait_for')
+    vc.drive(ld.fn(t, wanted_arg))
+    waits = [ev for ev in vc.trace if ev[0] == 'wait_for']
+    vc.ensure('wait_for.on_own_condition_under_lock', len(waits) == 1 and waits[0][1] is cond and waits[0][2] is True and cond.held is False)
+    vc.ensure('wait_for.returns_only_in_wanted_state', Iff(t._state, wanted))
+    vc.ensure('wait_for.no_wait_when_already_there', Implies(Iff(state0, wanted), others['turns'] == 0))
+    vc.canary('canary.always_off', Not(t._state))
+    return ('wait_for', others['turns'])
+
+
+def _o1u_set(vc):
+    from kopf._cogs.aiokits import aiotoggles
+    fn = [all, any][vc.nondet(2, 'ToggleSet(all) / ToggleSet(any)')]
+    n = vc.nondet(3, 'number of member toggles')
+    members = []
+    others = dict(turns=0)
+
+    def meanwhile():
+        for m in members:
+            m._state = vc.bool('member.state')
+        others['turns'] += 1
+    cond = _CondStub(vc, 'set', meanwhile)
+    ts = aiotoggles.ToggleSet.__new__(aiotoggles.ToggleSet)
+    ts._condition, ts._toggles, ts._fn = cond, set(), fn
+    for i in range(n):
+        m = aiotoggles.Toggle.__new__(aiotoggles.Toggle)
+        m._condition, m._state, m._name = cond, vc.bool(f'member{i}.state@pre'), f'm{i}'
+        members.append(m); ts._toggles.add(m)
+
+    def spec_on():
+        states = [m._state for m in members]
+        return (And(*states) if states else True) if fn is all else (Or(*states) if states else False)
+    on0 = spec_on()
+    wanted_arg, wanted = _o1u_wanted(vc)
+    ld_on = vc.load('kopf._cogs.aiokits.aiotoggles', 'ToggleSet.is_on')
+    ts.is_on = lambda: ld_on.fn(ts)        # the real is_on (contract O1t), extracted
+    ld = vc.load('kopf._cogs.aiokits.aiotoggles', 'ToggleSet.wait_for')
+    vc.drive(ld.fn(ts, wanted_arg))
+    waits = [ev for ev in vc.trace if ev[0] == 'wait_for']
+    vc.ensure('wait_for.on_own_condition_under_lock', len(waits) == 1 and waits[0][1] is cond and waits[0][2] is True and cond.held is False)
+    vc.ensure('set_wait_for.returns_only_in_wanted_aggregate', Iff(spec_on(), wanted))
+    vc.ensure('wait_for.no_wait_when_already_there', Implies(Iff(on0, wanted), others['turns'] == 0))
+    vc.canary('canary.always_off', Not(spec_on()))
+    return ('set.wait_for', n, others['turns'])
+
+
+@harness('O1u', targets=['kopf._cogs.aiokits.aiotoggles.Toggle.__init__', 'kopf._cogs.aiokits.aiotoggles.Toggle.is_on',
+                         'kopf._cogs.aiokits.aiotoggles.Toggle.is_off', 'kopf._cogs.aiokits.aiotoggles.Toggle.turn_to',
+                         'kopf._cogs.aiokits.aiotoggles.Toggle.wait_for', 'kopf._cogs.aiokits.aiotoggles.ToggleSet.wait_for'],
+         props=['C13', 'C17'],
+         clauses=['toggle.init', 'toggle.is_on_is_off', 'turn_to.sets_state', 'turn_to.notifies_under_lock', 'wait_for.on_own_condition_under_lock',
+                  'wait_for.returns_only_in_wanted_state', 'wait_for.no_wait_when_already_there',
+                  'set_wait_for.returns_only_in_wanted_aggregate'],
+         canaries=['canary.always_off'],
+         trusted=['asyncio.Condition by contract (see _CondStub)', 'ToggleSet.is_on by contract O1t (the real method is used)',
+                  'members bounded by 2 (is_on iterates the member set natively)'])
+def O1u(vc):
+    """
+    The waiting side of the toggles behind the operator pause (C13: `conflicts_found` / `operator_paused`, fn=any) and the
+    index gate (C17: `operator_indexed`, fn=all) -- the ToggleStub / GhostToggleSet contracts used by P1, W2, Q7, H6, O1.
+      Toggle.__init__     off by default, otherwise bool(initial); waits/notifies on the condition it is given (its owning
+                          set's, so that the set's waiters hear its turns) or else on one of its own; name kept
+      Toggle.is_on/is_off the state / its negation
+      Toggle.turn_to(s)   state := bool(s), and all waiters are notified while the condition is held
+      Toggle.wait_for(s)  waits, holding its condition, and returns only when the state equals bool(s) -- whatever other tasks
+                          did to the toggle meanwhile; no waiting at all when it is in that state already
+      ToggleSet.wait_for(s)   the same for the aggregated state fn(member states) of 0..2 members, fn in {all, any}
+    """
+    if vc.nondet(2, 'a toggle / a toggle set') == 0:
+        return _o1u_toggle(vc)
+    return _o1u_set(vc)
